@@ -506,12 +506,22 @@ def sc_shapley_algebra(M, n, a=0, b=1):
 
 
 @scenario
-def sc_exploitability(M, n, canary=False):
+def sc_exploitability(M, n, canary=False, history=False):
     """C05: for any bound table with known grand coalition (empty coalition [0,0]):
     result = sum_i shapley(maxgain_i)(i) - v(N) = sum_S (up(S)-lo(S))/C(n,|S|); MaxGainGame's two entry
-    points equal the spec maxgain_i(S) = up(S) if i in S else lo(S)."""
+    points equal the spec maxgain_i(S) = up(S) if i in S else lo(S).
+    history: the process has used every other public entry point of the Shapley / exploitability modules before, on
+    another game with the same number of players (tables memoised per player count must not be disturbed by it)."""
     ex = M.mod("exploitability")
     C = M.mod("coalitions").Coalition
+    if history:
+        sh = M.mod("shapley")
+        other = complete_game(M, n, [M.const(bin(c).count("1") ** 2 + (c % 3)) for c in range(1 << n)])
+        first = [M.val(x) for x in sh.compute_shapley_value(other)]
+        M.val(sh.compute_shapley_value_for_player(n - 1, other))
+        M.val(ex.compute_exploitability(other))
+        again = [M.val(x) for x in sh.compute_shapley_value(other)]
+        M.check("history.shapley_is_repeatable", M.and_(*[a == b for a, b in zip(first, again)]))
     g, lo, up = arbitrary_bounds_game(M, n)
     full = (1 << n) - 1
     r = M.val(ex.compute_exploitability(g))
